@@ -162,7 +162,7 @@ func (pa *path) initialize() {
 	pa.onDemandStaticSourceCloseTimer = emptyTimer()
 	pa.onDemandPublisherReadyTimer = emptyTimer()
 	pa.onDemandPublisherCloseTimer = emptyTimer()
-	pa.chReloadConf = make(chan *conf.Path)
+	pa.chReloadConf = make(chan *conf.Path, 1)
 	pa.chStaticSourceSetReady = make(chan defs.PathSourceStaticSetReadyReq)
 	pa.chStaticSourceSetNotReady = make(chan defs.PathSourceStaticSetNotReadyReq)
 	pa.chDescribe = make(chan defs.PathDescribeReq)
@@ -1087,10 +1087,21 @@ func (pa *path) addReaderPost(req defs.PathAddReaderReq) {
 }
 
 // reloadConf is called by pathManager.
+// It never blocks, and when called several times in a row,
+// the last configuration always prevails.
 func (pa *path) reloadConf(newConf *conf.Path) {
-	select {
-	case pa.chReloadConf <- newConf:
-	case <-pa.ctx.Done():
+	for {
+		select {
+		case pa.chReloadConf <- newConf:
+			return
+		default:
+		}
+
+		// drop the configuration that has not been processed yet
+		select {
+		case <-pa.chReloadConf:
+		default:
+		}
 	}
 }
 
